@@ -17,6 +17,6 @@ CONSTANTS
   MaxSteps = 1
   HostileSteps = 1
   AllScopes = FALSE
-  GenWhat = {"subnames", "sublist"}
+  GenWhat = {"subnames", "sublist", "subfaults"}
   GenFull = TRUE
 CHECK_DEADLOCK FALSE
